@@ -20,6 +20,7 @@
   `rets` (all returns that were averaged into an action's `V`) and `budget` are ghost fields.
 -/
 import AITB.Model.Num
+import AITB.Gen.C19
 namespace AITB.Tree
 
 abbrev Key := Nat × Nat
@@ -53,6 +54,13 @@ structure Mdl where
       `some ε`: any action whose score is within `ε` of it is accepted (used by the driver only to recognise runs in
       which rounding of `V` decided a near-tie) -/
   uctSlack : Option Rat
+  /-- `sampleAction(a, key, horizon)` tests `a >= graph_.children.size()` before indexing `graph_.children[a]` and starts
+      from scratch in that case (repaired form, fixes/C19-3), or indexes unconditionally (as first read: on a planner that
+      has not been called yet the vector is empty — undefined behaviour, although the documentation promises a restart) -/
+  advGuard : Bool := false
+  /-- rPOMCP only: a visit that ends at a node as a leaf records the datapoint it passes upwards in the node's value
+      (`V += (datapoint - V) / N`, repaired form, fixes/C19-4) or leaves `V` alone (as first read) -/
+  rLeafV : Bool := false
   /-- rPOMCP only: `UseEntropy` (negative-entropy knowledge measure) instead of max-of-belief -/
   entropy : Bool := false
   /-- rPOMCP with entropy only: `p * log(p)` for `p = c / n` as the double the code computes (`log` is not
@@ -239,7 +247,7 @@ inductive Op where
 
 def Tree.withBudget (t : Tree) (b : Nat) : Tree := { t with budget := if t.budget < b then b else t.budget }
 
-/-- the tree the simulations of this call start from (`none`: `graph_.children[a]` out of range) -/
+/-- the tree the simulations of this call start from (`none`: `graph_.children[a]` indexed out of range: undefined behaviour) -/
 def prepare (m : Mdl) (t : Tree) : Op → Option (Tree × Nat × Nat)
   | .fresh parts nA H iters => some (Tree.fresh parts nA (H + m.overrun), H, iters)
   | .adv a k parts nA H iters =>
@@ -249,7 +257,7 @@ def prepare (m : Mdl) (t : Tree) : Op → Option (Tree × Nat × Nat)
         | none => none
         | some t' => some (t'.withBudget (H + m.overrun), H, iters)
       else some (Tree.fresh parts nA (H + m.overrun), H, iters)
-    else none
+    else if m.advGuard then some (Tree.fresh parts nA (H + m.overrun), H, iters) else none
 
 /-- one public call: prepare the root, run the simulations on the logged steps
     (`runSimulation`: `if ( !horizon ) return 0;` before anything is simulated) -/
@@ -318,13 +326,15 @@ structure RTree where
   margin : Option Rat
   negEnt : Path → Nat → Rat
   dps : Path → Nat → List Rat
+  /-- ghost: the sum of the datapoints the node has passed to its parent (leaf visits and descents) -/
+  up : Path → Rat
 
 def RTree.fresh (support : List Nat) (nA : Nat) : RTree :=
   { ex := fun p => p == [], nN := fun _ => 0, nA := fun p => if p = [] then nA else 0,
     tb := fun p s => if p = [] ∧ support.contains s then 1 else 0, keys := fun p => if p = [] then support else [],
     maxS := fun _ => 0, km := fun _ => 0, v := fun _ => 0, actV := fun _ => 0, best := fun _ => 0,
     aN := fun _ _ => 0, aV := fun _ _ => 0, stops := fun _ => 0, nodes := [[]], margin := none,
-    negEnt := fun _ _ => 0, dps := fun _ _ => [] }
+    negEnt := fun _ _ => 0, dps := fun _ _ => [], up := fun _ => 0 }
 
 def noteMargin (mg : Option Rat) (x y : Rat) : Option Rat :=
   let d := if x < y then y - x else x - y
@@ -364,9 +374,15 @@ def rdown (m : Mdl) (t : RTree) (p : Path) (st : Step) : RTree × Bool :=
   let t := if newNode then { t with ex := upd t.ex child true, nodes := t.nodes ++ [child] } else t
   (t.updBK m child st.s1, newNode)
 
-/-- a visit that ends at the child as a leaf: `ot->second.N += 1` -/
-def rleaf (t : RTree) (child : Path) : RTree :=
-  { t with nN := upd t.nN child (t.nN child + 1), stops := upd t.stops child (t.stops child + 1) }
+/-- a visit that ends at the child as a leaf: `ot->second.N += 1`; the datapoint `imm` it passes upwards is 0, or the
+    knowledge measure at the last level.  `recV` (repaired form, fixes/C19-4): the leaf's value becomes the mean of the
+    datapoints it has passed upwards, `V += (imm - V) / N`; in the source as first read `V` is left alone. -/
+def rleaf (t : RTree) (child : Path) (recV : Bool) (imm : Rat) : RTree :=
+  -- (the new value is computed first and stored by an unconditional `upd`: an `if` between two *functions* would be
+  --  eta-expanded by the compiler and re-evaluate the mean on every lookup)
+  let nv : Rat := if recV then t.v child + (imm - t.v child) / ((t.nN child + 1 : Nat) : Rat) else t.v child
+  { t with nN := upd t.nN child (t.nN child + 1), stops := upd t.stops child (t.stops child + 1),
+           v := upd t.v child nv, up := upd t.up child (t.up child + imm) }
 
 /-- the mean / max bookkeeping of a belief node below the root after one of its actions was updated:
     new `actionsV`, new `bestAction`, new comparison margin.  (`b.N == k_`: `actionsV = HUGE_VAL; bestAction = a`, then
@@ -395,8 +411,9 @@ def rup (m : Mdl) (k : Nat) (t : RTree) (p : Path) (a depth : Nat) (imm : Rat) :
   if depth = 0 then (t, 0) else
   let b := rbook k t p a imm
   let newV := m.gamma * b.1 + t.km p
-  ({ t with actV := upd t.actV p b.1, best := upd t.best p b.2.1, margin := b.2.2, v := upd t.v p newV },
-   ((t.nN p - 1 : Nat) : Rat) * (newV - t.v p) + newV)
+  let d : Rat := ((t.nN p - 1 : Nat) : Rat) * (newV - t.v p) + newV
+  ({ t with actV := upd t.actV p b.1, best := upd t.best p b.2.1, margin := b.2.2, v := upd t.v p newV,
+            up := upd t.up p (t.up p + d) }, d)
 
 /-- `rPOMCP::simulate(node at p, s, depth)`; `k` is the threshold `k_` -/
 def rsim (m : Mdl) (H k : Nat) : Nat → RTree → Path → Nat → Nat → List Step → Option (RTree × Rat × List Step)
@@ -412,7 +429,8 @@ def rsim (m : Mdl) (H k : Nat) : Nat → RTree → Path → Nat → Nat → List
           | none => none
           | some t2 => rsim m H k fuel t2 child st.s1 (depth + 1) log
         else
-          some (rleaf d.1 child, if depth + 1 < H then 0 else (rleaf d.1 child).km child, log)
+          let imm : Rat := if depth + 1 < H then 0 else d.1.km child
+          some (rleaf d.1 child m.rLeafV imm, imm, log)
       match r with
       | none => none
       | some (t3, imm, log') => some ((rup m k t3 p st.a depth imm).1, (rup m k t3 p st.a depth imm).2, log')
@@ -436,7 +454,7 @@ def RTree.reroot (t : RTree) (k : Key) : RTree :=
     best := fun p => t.best (k :: p), aN := fun p => t.aN (k :: p), aV := fun p => t.aV (k :: p),
     stops := fun p => t.stops (k :: p),
     nodes := t.nodes.filterMap (fun p => match p with | k' :: r => if k' = k then some r else none | [] => none),
-    margin := t.margin, negEnt := fun p => t.negEnt (k :: p), dps := fun p => t.dps (k :: p) }
+    margin := t.margin, negEnt := fun p => t.negEnt (k :: p), dps := fun p => t.dps (k :: p), up := fun p => t.up (k :: p) }
 
 /-- the tree the simulations of a public rPOMCP call start from: a fresh head node, or the promoted child
     (`HNode(A, std::move(tmp), rand_)`: everything the child holds, its particle map becoming the sampling belief) -/
@@ -460,6 +478,67 @@ def rcall (m : Mdl) (k : Nat) (t : RTree) (op : Op) (log : List Step) : Option (
     | some (t1, rest) =>
       let b := argmaxV (t1.aV []) (t1.nA [])
       some ({ t1 with v := upd t1.v [] (t1.aV [] b) }, rest)
+
+/-! #### The head node's sampling belief (Utils/rPOMCPGraph.hpp: `HeadBeliefNode`)
+
+  `sampleBelief_` is a vector of `(state, count)` pairs, `beliefSize_` the total the uniform draw ranges over.  The head
+  is built either from a `Belief` (`beliefSize` draws of `sampleProbability`, grouped by state) or from a promoted
+  `BeliefNode` (one pair per entry of its particle map, *including* the zero-count entry `operator[]` may have created
+  for `maxS_`; `beliefSize_` accumulated as the sum of the counts).  The iteration order of the `unordered_map` is an
+  external choice: everything below is stated for the vector as it is. -/
+
+/-- `beliefSize_` as the promotion constructor accumulates it: the sum of the counts -/
+def beliefTotal : List (Nat × Nat) → Nat
+  | [] => 0
+  | (_, c) :: rest => c + beliefTotal rest
+
+/-- `HeadBeliefNode::sampleBelief()` after the draw `pick` (uniform on `[1, beliefSize_]`):
+    `while (true) { pick -= sampleBelief_[index].second; if ( pick < sampleWalkStop ) return sampleBelief_[index].first; ++index; }`
+    (`sampleWalkStop` is read from the source by tools/extract_c19.py: 1).
+    `none` = the walk leaves the vector (an out-of-bounds read in the C++ code). -/
+def sampleWalk : List (Nat × Nat) → Int → Option Nat
+  | [], _ => none
+  | (s, c) :: rest, pick => if pick - (c : Int) < Gen.C19.sampleWalkStop then some s else sampleWalk rest (pick - (c : Int))
+
+/-- the scan of `HeadBeliefNode::getMostCommonParticle()`: `bestGuessCount = 0`, move on `count > bestGuessCount`;
+    `none` = `bestGuess` was never assigned (the function then returns an uninitialised value) -/
+def mostCommonGo : List (Nat × Nat) → Option Nat → Nat → Option Nat
+  | [], best, _ => best
+  | (s, c) :: rest, best, bc => if bc < c then mostCommonGo rest (some s) c else mostCommonGo rest best bc
+def mostCommon (l : List (Nat × Nat)) : Option Nat := mostCommonGo l none 0
+
+def countOf (l : List (Nat × Nat)) (s : Nat) : Nat :=
+  match l.find? (fun x => x.1 == s) with
+  | some x => x.2
+  | none => 0
+
+def maxCount : List (Nat × Nat) → Nat
+  | [] => 0
+  | (_, c) :: rest => if maxCount rest < c then c else maxCount rest
+
+/-- `l.map (·.1)` has no duplicates (the pairs come out of a map: one per state) -/
+def distinctStates : List (Nat × Nat) → Bool
+  | [] => true
+  | (s, _) :: rest => !(rest.any (fun x => x.1 == s)) && distinctStates rest
+
+/-- checker on the implementation's own head node after `sampleAction(a, o, h)` promoted a child: `head` (the private
+    `sampleBelief_`) holds exactly the entries of the child's particle map `child` (as dumped before the call), once
+    each, and `bsz` (the private `beliefSize_`) is their total and positive -/
+def headOk (child head : List (Nat × Nat)) (bsz : Nat) : Bool :=
+  head.length == child.length && head.all (fun x => child.contains x) && child.all (fun x => head.contains x) &&
+  distinctStates head && distinctStates child &&
+  bsz == beliefTotal head && decide (0 < bsz)
+
+/-- checker on the head node built from a `Belief` with support `support` and `n` requested particles: every listed
+    state has a positive count and positive probability, states are listed once, the counts add up to `n = beliefSize_` -/
+def headFreshOk (support : List Nat) (head : List (Nat × Nat)) (n bsz : Nat) : Bool :=
+  head.all (fun x => support.contains x.1 && decide (0 < x.2)) && distinctStates head &&
+  bsz == beliefTotal head && bsz == n && decide (0 < bsz)
+
+/-- the sum of `f` over a list of particle types -/
+def sumOver (f : Nat → Nat) : List Nat → Nat
+  | [] => 0
+  | x :: xs => f x + sumOver f xs
 
 end R
 
